@@ -50,6 +50,7 @@ ALL_FEATURES = (
     "leading_code",
 )
 # "big_incbin" (a >64 KiB contiguous block) is opt-in: callers add it explicitly with a low probability.
+# "avoid_first_bank" is opt-in too: the program leaves the first 64 KiB of the image alone.
 
 NAKED = "nop inx iny dex dey clc sec sei pha pla phx plx phy ply php plp tax tay txa tya xba xce inc dec asl lsr ror rol phb plb phd pld phk tcd tcs tdc tsc tsx txs txy tyx".split()
 IMM_BW = "lda ldx ldy cmp adc sbc and cpx cpy bit".split()  # .b and .w immediates
@@ -318,7 +319,7 @@ def insert_at(prog: Prog, slot: dict[str, Any], node: Node) -> Prog:
     return p
 
 
-def iter_removals(prog: Prog) -> Iterator[Prog]:
+def iter_removals(prog: Prog, with_node: bool = False) -> Iterator[Prog]:
     """Programs with one statement (or one whole block) removed, outermost first."""
 
     def walk(file: str, nodes: list[Node], path: list[tuple[int, str]]) -> Iterator[tuple[str, list[tuple[int, str]], int]]:
@@ -338,8 +339,12 @@ def iter_removals(prog: Prog) -> Iterator[Prog]:
         lst = _list_at(p, file, path)
         if lst[i].get("keep"):
             continue
+        removed = lst[i]
         del lst[i]
-        yield p
+        if with_node:
+            yield p, removed, file  # type: ignore[misc]
+        else:
+            yield p
 
 
 def count_statements(prog: Prog) -> int:
@@ -379,6 +384,8 @@ class Gen:
         self.has_table = False
         self.table_chars = ""
         self.used_banks: set[int] = set()
+        if "avoid_first_bank" in feats:
+            self.used_banks |= {0, 1}  # opt-in: nothing is placed in the first 64 KiB of the image
         self.defines = list(defines or [])
         self.prog.defines = list(self.defines)
         for name, value in self.defines:
@@ -856,7 +863,7 @@ class Gen:
             root += self.custom_map()
         include_at = rng.randrange(n_sections) if "include" in f else -1
         section_addrs: list[int] = []
-        if "leading_code" in f and self.mapping == "low" and not use_map:
+        if "leading_code" in f and self.mapping == "low" and not use_map and "avoid_first_bank" not in f:
             # statements before the first '*=': assembled from the position a fresh Program starts at
             lead = f"L{self.uid()}"
             self.globals.append(lead)
@@ -945,6 +952,14 @@ class Gen:
                 root.append(stmt(".db " + ", ".join("0" for _ in range(rng.randrange(2, 9)))))  # all-zero bytes over earlier output
             else:
                 root.append(stmt(".db " + ", ".join(self.lit(8) for _ in range(rng.randrange(2, 9)))))
+        if "overlap" in f and "big_incbin" not in f and rng.random() < 0.35:
+            # the same block written twice with an overlapping one in between (a default table, a patch of
+            # one entry, the default table again): the last write wins, whatever a writer remembers
+            rb = {"low": 0x0E, "low2": 0x8E, "high": 0xC6, "any": 0xC8}[self.mapping]
+            ra = (rb << 16) | rng.choice([0x8000, 0x9100, 0xF000])
+            first = ".db " + ", ".join(self.lit(8) for _ in range(rng.randrange(3, 9)))
+            if not use_map:
+                root += [stmt(f"*={ra:#08x}", "stareq"), stmt(first), stmt(f"*={ra + rng.randrange(0, 3):#08x}", "stareq"), stmt(f".db {self.lit(8)}"), stmt(f"*={ra:#08x}", "stareq"), stmt(first)]
         if "zero_block" in f and not use_map and "low2_upper" not in f:
             # a block made of zero bytes only, above everything else the program writes (a writer must
             # still write it: the flat image ends with it, and a patch must contain it)
